@@ -9,6 +9,7 @@ import Proofs.ModelsNested
 import Proofs.ModelsCnl
 import Proofs.ModelsReduce
 import Proofs.ModelsSingle
+import Proofs.ModelsTable
 import Proofs.ModelsGen
 import Proofs.ModelsNests
 
@@ -115,12 +116,83 @@ theorem scale_one_nested (nests : List (Nest ℝ)) (alts : List Int) (V av : Int
   · unfold logNestedMuP logNestedP
     rw [this]
 
-/-- explicit scale one = unscaled version: cross-nested logit (alpha, availabilities ≥ 0, every
-available alternative of a nest has a positive alpha somewhere) -/
+/-- explicit scale one = unscaled version: cross-nested logit, every well-formed structure
+(alpha, availabilities ≥ 0, nest parameters ≠ 0).  An alternative whose membership is zero in every
+nest that lists it (an alternative outside every nest in a membership table) is "alone in its own
+nest" in both versions; any other listed alternative has a positive membership. -/
 theorem scale_one_cnl (nests : List (CNest ℝ)) (alts : List Int) (V av : Int → ℝ) (c : Int)
-    (hc : c ∈ alts) (ok : CnlOK nests av) (hr : ∀ i ∈ alts, av i ≠ 0 → Reachable nests i) :
+    (hc : c ∈ alts) (ok : CnlOK nests av) :
     cnlMuP nests 1 alts V av c = cnlP nests alts V av c :=
-  cnlMuP_one nests alts V av c hc ok (fun i hi hav => hr i hi ((avail_iff av i).1 hav))
+  cnlMuP_one_all nests alts V av c hc ok
+
+/-- a well-formed structure with an alternative (5) of zero membership in every nest -/
+example : CnlOK [(⟨1.5, [(1, 1), (2, 0.5), (5, 0)]⟩ : CNest ℝ), ⟨2, [(2, 0.5), (3, 1), (5, 0)]⟩]
+    (fun _ => 1) ∧
+    zeroMember [(⟨1.5, [(1, 1), (2, 0.5), (5, 0)]⟩ : CNest ℝ), ⟨2, [(2, 0.5), (3, 1), (5, 0)]⟩] 5 = true := by
+  refine ⟨⟨?_, fun _ => zero_le_one, ?_⟩, ?_⟩
+  · intro m hm p hp
+    simp only [List.mem_cons, List.not_mem_nil, or_false] at hm
+    rcases hm with rfl | rfl <;>
+      (simp only [List.mem_cons, List.not_mem_nil, or_false] at hp
+       rcases hp with rfl | rfl | rfl <;> norm_num)
+  · intro m hm
+    simp only [List.mem_cons, List.not_mem_nil, or_false] at hm
+    rcases hm with rfl | rfl <;> norm_num
+  · rw [zeroMember_iff]
+    intro m hm p hp hpi
+    simp only [List.mem_cons, List.not_mem_nil, or_false] at hm
+    rcases hm with rfl | rfl <;>
+      (simp only [List.mem_cons, List.not_mem_nil, or_false] at hp
+       rcases hp with rfl | rfl | rfl <;> simp_all)
+
+/-- **memberships written as a table**: listing in a nest alternatives that do not belong to it,
+with alpha 0 (`extra m`: any list — the rest of the choice set gives the full table), changes no
+cross-nested probability, without and with the explicit scale.  In particular an alternative
+outside every nest, listed with alpha 0 everywhere, is treated as alone. -/
+theorem cnl_table (extra : CNest ℝ → List Int) (nests : List (CNest ℝ)) (alts : List Int)
+    (V av : Int → ℝ) (c : Int) (hmu : ∀ m ∈ nests, m.mu ≠ 0) :
+    cnlP (nests.map (withZeros extra)) alts V av c = cnlP nests alts V av c :=
+  cnlP_withZeros extra nests alts V av c hmu
+
+theorem cnl_mu_table (extra : CNest ℝ → List Int) (nests : List (CNest ℝ)) (mu : ℝ)
+    (alts : List Int) (V av : Int → ℝ) (c : Int) (hmu : ∀ m ∈ nests, m.mu ≠ 0) (hmu0 : mu ≠ 0) :
+    cnlMuP (nests.map (withZeros extra)) mu alts V av c = cnlMuP nests mu alts V av c :=
+  cnlMuP_withZeros extra nests mu alts V av c hmu hmu0
+
+/-- the full table over the choice set `[7, 3, 12, 5]` of a nest with members 7 and 12 -/
+example : withZeros (fun m => [7, 3, 12, 5].filter fun i => !m.alts.contains i)
+    (⟨1.5, [(7, 1), (12, 1)]⟩ : CNest ℝ) = ⟨1.5, [(7, 1), (12, 1), (3, 0), (5, 0)]⟩ := by
+  simp [withZeros, CNest.alts]
+
+/-- **whole memberships written as a full table = nested logit**: alpha 1 in the nest of the
+alternative, 0 in the nests listed in `extra` (all the others), alternatives outside every nest
+with alpha 0 everywhere -/
+theorem cnl_degenerate_table (extra : CNest ℝ → List Int) (nests : List (Nest ℝ)) (alts : List Int)
+    (V av : Int → ℝ) (c : Int) (hc : c ∈ alts)
+    (hpw : nests.Pairwise (fun a b => ∀ j, j ∈ a.alts → j ∉ b.alts))
+    (hnd : ∀ n ∈ nests, n.alts.Nodup) (hmu : ∀ m ∈ nests, m.mu ≠ 0)
+    (h01 : ∀ j, av j = 0 ∨ av j = 1) :
+    cnlP ((nests.map toCNest).map (withZeros extra)) alts V av c = nestedP nests alts V av c := by
+  rw [cnl_table extra _ alts V av c (by
+    intro m hm
+    obtain ⟨n, hn, rfl⟩ := List.mem_map.1 hm
+    exact hmu n hn)]
+  exact cnlP_toCNest nests alts V av c hc hpw hnd hmu h01
+
+/-- the same with the explicit scale `mu > 0` (and allocations `a i > 0`; `a = 1`: whole memberships) -/
+theorem cnl_mu_single_nest_table (extra : CNest ℝ → List Int) (a : Int → ℝ) (nests : List (Nest ℝ))
+    (mu : ℝ) (alts : List Int) (V av : Int → ℝ) (c : Int) (hc : c ∈ alts)
+    (hpw : nests.Pairwise (fun x y => ∀ j, j ∈ x.alts → j ∉ y.alts))
+    (hnd : ∀ n ∈ nests, n.alts.Nodup) (hmum : ∀ m ∈ nests, m.mu ≠ 0) (hmu : 0 < mu)
+    (h01 : ∀ j, av j = 0 ∨ av j = 1) (ha : ∀ j, 0 < a j)
+    (ha1 : ∀ j, (∀ m ∈ nests, j ∉ m.alts) → a j = 1) :
+    cnlMuP ((nests.map (toCNestA a)).map (withZeros extra)) mu alts V av c =
+      nestedMuP nests mu alts (fun j => V j + Real.log (a j) / mu) av c := by
+  rw [cnl_mu_table extra _ mu alts V av c (by
+    intro m hm
+    obtain ⟨n, hn, rfl⟩ := List.mem_map.1 hm
+    exact hmum n hn) hmu.ne']
+  exact cnlMuP_toCNestA a nests mu alts V av c hc hpw hnd hmum hmu h01 ha ha1
 
 /-- nests written as legacy tuples are converted to the nests written as objects, with
 `choice_set = list(util)`: the two calls build the same validated nest object, hence the same
